@@ -89,11 +89,92 @@ Print Assumptions C02_key_on_record_decides.
 
 (* The spec checker that is run over the REAL observations accepts every step of the repaired model
    (instantiated with any oracle tables): the clauses auth / sequence / key / frame / panic are
-   implied by the theorems above.  (The remaining clause, replay, is C02_replay_rejected.) *)
+   implied by the theorems above ... *)
 Theorem C02_chk_step_sound :
   forall T g pre t bal, NoDup (map fst pre) -> step_clauses T g pre (model_step T g pre t bal) = [].
 Proof. exact chk_step_sound. Qed.
 Print Assumptions C02_chk_step_sound.
+
+(* ... and every HISTORY of it, including the replay clause and the CheckTx clause *)
+Theorem C02_chk_sound :
+  forall T g init l, NoDup (map fst init) ->
+  seq_room (state_of init) (Z.of_nat (List.length l)) -> id_consistent (map fst l) ->
+  case_clauses (mkHist g T (match l with (t, _) :: _ =>
+                              class_of (ante (t_verify T) (t_recover T) (t_addr_of_pk T) (t_eth_sender T) repaired (mkCtx 0 g) (state_of init) t)
+                            | [] => -1 end) None init (model_trace T g init l)) = [].
+Proof. exact chk_sound. Qed.
+Print Assumptions C02_chk_sound.
+
+(* ---- "authorised EXACTLY that transaction": what each signing scheme covers.
+   Key path (DIRECT / LEGACY_AMINO_JSON): the whole signed content.  Hypothesis stated: a signature
+   verifies for one document only. *)
+Theorem C02_exact_key_path :
+  forall verify recover addr_of_pk eth_sender v c s t1 t2 s1 s2, sig_binds_doc verify ->
+  sound_for v t1 = true -> sound_for v t2 = true ->
+  ante verify recover addr_of_pk eth_sender v c s t1 = Ok s1 -> ante verify recover addr_of_pk eth_sender v c s t2 = Ok s2 ->
+  forall i a x1 x2 acc k,
+  nth_error (signers t1) i = Some a -> nth_error (t_slots t1) i = Some x1 ->
+  nth_error (signers t2) i = Some a -> nth_error (t_slots t2) i = Some x2 ->
+  get_acc s a = Some acc -> a_pub acc = Some k -> addr_of_pk k = a -> s_sig x1 = s_sig x2 ->
+  t_id t1 = t_id t2 /\ s_mode x1 = s_mode x2.
+Proof. exact exact_key_path. Qed.
+Print Assumptions C02_exact_key_path.
+
+(* EIP-712: the message (with the sequence and chain id 8789) -- hypothesis: a signature recovers to the
+   same address for one digest only *)
+Theorem C02_exact_eip712_covers_message :
+  forall verify recover addr_of_pk eth_sender c s t1 t2 s1 s2, sig_binds_digest recover ->
+  ante verify recover addr_of_pk eth_sender repaired c s t1 = Ok s1 -> ante verify recover addr_of_pk eth_sender repaired c s t2 = Ok s2 ->
+  forall a x1 x2 acc k id1 l1 id2 l2,
+  signers t1 = [a] -> t_slots t1 = [x1] -> signers t2 = [a] -> t_slots t2 = [x2] ->
+  t_msgs t1 = [MPlain id1 l1] -> t_msgs t2 = [MPlain id2 l2] -> s_mode x1 = MDirect -> s_mode x2 = MDirect ->
+  get_acc s a = Some acc -> a_pub acc = Some k -> addr_of_pk k <> a -> s_sig x1 = s_sig x2 ->
+  id1 = id2.
+Proof. exact exact_eip712_covers_message. Qed.
+Print Assumptions C02_exact_eip712_covers_message.
+
+(* ... but nothing else: REFUTED -- two transactions with different content (fee, memo, ...), the same
+   messages and the same signature slots are both admitted from the same state, on the EIP-712 path and on
+   the raw Ethereum path, with oracles satisfying both binding hypotheses (known findings
+   exact.eip712.fee-memo-not-signed / exact.ethraw.fee-memo-not-signed, reproduced on the real code) *)
+Theorem C02_exact_refuted_eip712 :
+  exists verify recover addr_of_pk eth_sender c s t1 t2 s1 s2,
+    sig_binds_doc verify /\ sig_binds_digest recover /\
+    ante verify recover addr_of_pk eth_sender repaired c s t1 = Ok s1 /\
+    ante verify recover addr_of_pk eth_sender repaired c s t2 = Ok s2 /\
+    signers t1 = signers t2 /\ t_slots t1 = t_slots t2 /\ t_msgs t1 = t_msgs t2 /\ t_id t1 <> t_id t2.
+Proof. exact exact_refuted_eip712. Qed.
+Print Assumptions C02_exact_refuted_eip712.
+Theorem C02_exact_refuted_ethraw :
+  exists verify recover addr_of_pk eth_sender c s t1 t2 s1 s2,
+    sig_binds_doc verify /\ sig_binds_digest recover /\
+    ante verify recover addr_of_pk eth_sender repaired c s t1 = Ok s1 /\
+    ante verify recover addr_of_pk eth_sender repaired c s t2 = Ok s2 /\
+    signers t1 = signers t2 /\ t_slots t1 = t_slots t2 /\ t_msgs t1 = t_msgs t2 /\ t_id t1 <> t_id t2.
+Proof. exact exact_refuted_ethraw. Qed.
+Print Assumptions C02_exact_refuted_ethraw.
+
+(* ---- the uint64 sequence.  While no sequence reaches 2^64 they only grow (so a wrap needs at least
+   2^64 - seq accepted transactions of the account, or a genesis file that sets the sequence) ... *)
+Theorem C02_sequence_monotone_until_wrap :
+  forall verify recover addr_of_pk eth_sender v c ops s a acc, get_acc s a = Some acc ->
+  0 <= a_seq acc -> a_seq acc + Z.of_nat (List.length ops) < two64 ->
+  exists acc', get_acc (run verify recover addr_of_pk eth_sender v c s ops) a = Some acc' /\
+               a_seq acc <= a_seq acc' <= a_seq acc + Z.of_nat (List.length ops).
+Proof. exact run_seq_mono. Qed.
+Print Assumptions C02_sequence_monotone_until_wrap.
+(* ... without the bound both statements are REFUTED: 2^64-1 wraps to 0, and after 2^64 accepted
+   transactions of the account the first one is accepted again *)
+Theorem C02_sequence_wrap_refuted :
+  forall v, exists s t s' acc acc', ante u_verify w_recover w_addr_of_pk w_eth_sender v w_ctx s t = Ok s' /\
+    get_acc s 200 = Some acc /\ get_acc s' 200 = Some acc' /\ a_seq acc' < a_seq acc.
+Proof. exact sequence_wrap_refuted. Qed.
+Print Assumptions C02_sequence_wrap_refuted.
+Theorem C02_replay_unbounded_refuted :
+  forall v, exists s t s' ops, ante u_verify w_recover w_addr_of_pk w_eth_sender v w_ctx s t = Ok s' /\
+    is_ok (ante u_verify w_recover w_addr_of_pk w_eth_sender v w_ctx (run u_verify w_recover w_addr_of_pk w_eth_sender v w_ctx s' ops) t) = true.
+Proof. exact replay_unbounded_refuted. Qed.
+Print Assumptions C02_replay_unbounded_refuted.
 
 (* ---- non-vacuity: the hypotheses are satisfiable by non-trivial states and transactions *)
 Example C02_nonvacuous_key : forall v,   (* ordinary DIRECT transaction by the key on record: accepted by every variant *)
